@@ -62,6 +62,10 @@ type Engine struct {
 	solverKind    SolverKind
 	verbose       bool
 	tier          int
+	crossCheck    bool
+	crossStats    *SolverStats
+	crossAgree    int64
+	crossDisagree int64
 }
 
 func (g *Engine) lookupIntercept(fn *ssa.Function) interceptFn {
@@ -268,6 +272,14 @@ func (g *Engine) Explore(name string, cfg HarnessCfg, workers int, nSamples int,
 				return
 			}
 			defer s.Close()
+			if g.crossCheck {
+				for _, k := range []SolverKind{SolverZ3New, SolverCVC5} {
+					if cs, err := NewSolver(k, g.crossStats); err == nil {
+						s.cross = append(s.cross, cs)
+						defer cs.Close()
+					}
+				}
+			}
 			for {
 				mu.Lock()
 				for len(work) == 0 && active > 0 {
